@@ -874,6 +874,10 @@ def gen_case_round7(rng, good):
         c["falsy_views"] = True
     else:
         c["selected_let"] = True
+        if rng.chance(0.25):
+            c["prog"]["body"] = []      # a PLAIN rule (no branch: the root is not a selector) with a let-declared target
+            if c["prog"]["tag"] is None:
+                c["prog"]["tag"] = 0
     return c
 
 
